@@ -189,6 +189,10 @@ impl<R: Read + Seek> PMTiles<R> {
     /// # Errors
     /// See [`get_tile_by_id`](Self::get_tile_by_id) for details on possible errors.
     pub fn get_tile(&mut self, x: u64, y: u64, z: u8) -> Result<Option<Vec<u8>>> {
+        if !is_valid_zxy(z, x, y) {
+            return Ok(None);
+        }
+
         self.get_tile_by_id(tile_id(z, x, y))
     }
 }
@@ -222,8 +226,18 @@ impl<R: AsyncRead + AsyncReadExt + Send + Unpin + AsyncSeekExt> PMTiles<R> {
     /// # Errors
     /// See [`get_tile_by_id_async`](Self::get_tile_by_id_async) for details on possible errors.
     pub async fn get_tile_async(&mut self, x: u64, y: u64, z: u8) -> Result<Option<Vec<u8>>> {
+        if !is_valid_zxy(z, x, y) {
+            return Ok(None);
+        }
+
         self.get_tile_by_id_async(tile_id(z, x, y)).await
     }
+}
+
+/// Returns `true` if `x` and `y` lie inside the grid of zoom `z` and `z` is a zoom
+/// level whose tile ids fit into 64 bits. Coordinates outside the grid do not denote a tile.
+const fn is_valid_zxy(z: u8, x: u64, y: u64) -> bool {
+    z < 32 && x < (1u64 << z) && y < (1u64 << z)
 }
 
 impl<R> PMTiles<R> {
